@@ -35,6 +35,7 @@ pub const WITNESSES: &[Witness] = &[
     Witness { prop: "C10", name: "rejected-source-leaves-nothing", steps: &[("1 foo 2 3", "UnknownWord"), ("4", "Ok")], stack: Some("4") },
     Witness { prop: "C10", name: "rejected-meta-block-keeps-stack", steps: &[("7", "Ok"), ("#( foo #)", "UnknownWord"), ("depth", "Ok")], stack: Some("7 | 1") },
     Witness { prop: "C10", name: "var-after-open-if", steps: &[("1 if", "ControlFlow"), ("5 var x x", "Ok")], stack: Some("5") },
+    Witness { prop: "C10", name: "rejected-source-after-partial-eval-failure", steps: &[("\"X\" print 1 0 /", "DivZero"), ("nosuchword", "UnknownWord"), ("5", "Ok")], stack: Some("5") },
     Witness { prop: "C12", name: "foreach-over-empty", steps: &[("[ ] foreach I loop depth", "Ok")], stack: Some("0") },
     Witness { prop: "C12", name: "slice-bound-beyond-isize", steps: &[("[ 1 2 3 ] 1 18446744073709551617 slice", "Ok")], stack: Some("[ 2 3 ]") },
     Witness { prop: "C13", name: "get-on-tagged-vector", steps: &[("[ 1 2 ] ^{ 1 \"k\" ^} 0 get", "Ok")], stack: Some("1") },
